@@ -6,7 +6,7 @@
 From Coq Require Import List NArith ZArith Bool Permutation.
 From PM Require Import Base.Bytes Base.Outcome Gen.GenConsts Model.ScriptAst Model.Enqueue Model.Script Model.Device Model.DevHarness
                        Model.Client Model.CliWorld Model.Daemon Spec.Proto
-                       Proofs.ClientProto Proofs.ClientStream Proofs.DeviceInv Proofs.DeviceRun Proofs.DeviceTimer Proofs.DaemonLedger Proofs.DaemonPending.
+                       Proofs.ClientProto Proofs.ClientStream Proofs.DeviceInv Proofs.DeviceRun Proofs.DeviceTimer Proofs.DaemonLedger Proofs.DaemonPending Model.Xpoll Proofs.XpollProofs.
 From PM Require Properties.C07.
 Import ListNotations.
 Local Open Scope Z_scope.
@@ -88,6 +88,20 @@ End C04.
 Theorem C04_deadline_fixed : forall a, a_stamp (rewind_action a) = a_stamp a /\ a_stamp (advance a) = a_stamp a.
 Proof. intros a. split; [apply stamp_kept_by_rewind|apply stamp_kept_by_advance]. Qed.
 
+(* xpoll (libcommon/xpoll.c): when poll() is interrupted by signals, every time-out handed to the next poll call is a real
+   one (never negative = never "forever" for a finite request: F39), and it does not overshoot the caller's deadline *)
+Theorem C04_xpoll_never_infinite : forall tv start intr, 0 <= tv -> Forall (fun e => start <= e) intr ->
+  Forall (fun ms => 0 <= ms) (xpoll_timeouts (Some tv) start intr).
+Proof. exact xpoll_never_infinite. Qed.
+Theorem C04_xpoll_within_deadline : forall tv start e, 0 <= tv -> start <= e ->
+  let ms := ms_of (remaining tv start e) in
+  (e - start) + ms * 1000 <= Z.max tv (e - start) /\ (e - start < tv -> tv - 1000 < (e - start) + ms * 1000).
+Proof. exact xpoll_within_deadline. Qed.
+Theorem C04_xpoll_unrepaired_refuted : ms_of (2000000 - (1002000100 - 1000000000)) = -1.
+Proof. exact xpoll_unrepaired_refuted. Qed.
+Example C04_xpoll_example : xpoll_timeouts (Some 2000000) 1000000000 [1000700000; 1001500000; 1002000100] = [2000; 1300; 500; 0].
+Proof. reflexivity. Qed.
+
 (* ---------------- non-vacuity: a daemon with one coprocess device; a client connects, sends `on n1`, the device stays
    silent, the action times out: exactly one terminal reply (210) and the invariant's hypotheses hold ---------------- *)
 Definition ex_st : daemon :=
@@ -132,6 +146,8 @@ Print Assumptions C04_pass_invariant.
 Print Assumptions C04_client_stream.
 Print Assumptions C04_no_timerless_wait.
 Print Assumptions C04_deadline_fixed.
+Print Assumptions C04_xpoll_never_infinite.
+Print Assumptions C04_xpoll_within_deadline.
 
 (* OPEN (DESIGN §5 C04):
    C04_progress  "pending c > 0 at time t  ->  pending c = 0 at some t' <= t + bound" (bounded time) is not proved: it needs a
